@@ -64,6 +64,9 @@ for k, op in enumerate(prog["ops"]):
             o = ctx.BoundedSemaphore(2)
         elif kind == "Queue":
             o = ctx.Queue(3)
+        elif kind == "NamedSem":
+            from loky.backend.synchronize import SemLock, SEMAPHORE
+            o = SemLock(SEMAPHORE, 1, 1, name=f"/loky-{os.getpid()}-n{k}:a:b")
         else:
             o = getattr(ctx, kind)()
         objs[op[1]] = (kind, o, [s for s in sems() if s not in before])
